@@ -6,6 +6,6 @@ package ovl
 const Enabled = false
 
 func SetMapIterHook(f func(pc uintptr, count int, B uint8) uint64) { panic("not an overlay build") }
-func SetNowOffset(sec int64)                                      { panic("not an overlay build") }
-func SetScheduler(spawn func(run func()), wait func())            { panic("not an overlay build") }
-func SetKVHook(f func(op string, key []byte))                     { panic("not an overlay build") }
+func SetNowOffset(sec int64)                                       { panic("not an overlay build") }
+func SetScheduler(spawn func(run func()), wait func())             { panic("not an overlay build") }
+func SetKVHook(f func(op string, key []byte))                      { panic("not an overlay build") }
